@@ -112,3 +112,28 @@ Fixpoint run (ops : list op) (w : world) : option world :=
 Definition init_world (env : list zs) : world := {| host := env; rt_env := fun _ => None |}.
 
 Definition join_kv (p : zs * zs) : zs := fst p ++ 61 :: snd p.
+
+(* ---- the host changes its own environment (os.Setenv / os.Unsetenv) between operations of the runtimes ---- *)
+Definition entry_name (e : zs) : zs := match split_at_first 61 e with Some (a, _) => a | None => e end.
+Definition host_unset (k : zs) (env : list zs) : list zs := filter (fun e => negb (zs_eqb (entry_name e) k)) env.
+Definition host_set (k v : zs) (env : list zs) : list zs := host_unset k env ++ [k ++ 61 :: v].
+
+Inductive hop :=
+| RtOp (o : op)
+| HostSet (k v : zs)
+| HostUnset (k : zs).
+
+Definition hstep (w : world) (h : hop) : option world :=
+  match h with
+  | RtOp o => step w o
+  | HostSet k v => Some {| host := host_set k v (host w); rt_env := rt_env w |}
+  | HostUnset k => Some {| host := host_unset k (host w); rt_env := rt_env w |}
+  end.
+
+Fixpoint hrun (hs : list hop) (w : world) : option world :=
+  match hs with
+  | [] => Some w
+  | h :: r => match hstep w h with None => None | Some w' => hrun r w' end
+  end.
+
+Definition touches (r : nat) (h : hop) : bool := match h with RtOp o => Nat.eqb (op_rt o) r | _ => false end.
